@@ -405,7 +405,7 @@ impl<'r, R: ReadValue> Fields<'r, R> {
     /// purposes.
     pub fn new(reader: &'r mut R, context: Option<&'static str>) -> Self {
         Self {
-            reader: LimitReader::new(reader, u64::MAX),
+            reader: LimitReader::unbounded(reader),
             context,
             unconsumed_field: None,
         }
@@ -442,9 +442,11 @@ impl<'r, R: ReadValue> Fields<'r, R> {
         let value = match wire_type {
             0 => self.reader.read_varint().map(FieldValue::Varint),
             1 => self.reader.read_i64().map(FieldValue::I64),
-            2 => self.reader.read_varint().map(|val| {
+            2 => self.reader.read_varint().and_then(|val| {
+                // The field must end before the end of this message.
+                self.reader.check_has_bytes(val)?;
                 len = val;
-                FieldValue::Len(val)
+                Ok(FieldValue::Len(val))
             }),
             3 => Ok(FieldValue::Sgroup),
             4 => Ok(FieldValue::Egroup),
